@@ -1145,3 +1145,63 @@ def storage_layout(ctx, rule, g):
                         bad = bad or "grow(%d) on a set of size %d, dim %d sets size to %s and appends %s cells; expected %d and %d" % (count, size, dim, ns, nc, size + count, count * (dim + 1))
     ctx.ob(rule, "dsets::PartialDSet", "new / idx / grow", "ok" if not bad and n else "violation",
            "size * (dim + 1) cells, idx a bijection onto them, grow keeps both (evaluated for dim 1..3, size 1..4, count 0..2)" if not bad and n else (bad or "nothing evaluated"))
+
+
+def coset_table_layout(ctx, rule, g):
+    """CosetTable keeps the image of row c under the letter g (g in -n..-1, 1..n) in table[c][g + n]: rows are 2n + 1 cells wide (new() and
+    the rows set() appends), the column expression is the same in get() and set() and maps the 2n letters injectively into 0..=2n, and an
+    undefined cell is -1 (get() answers None exactly for negative cells).  Decided by evaluating the expressions for n = 1..3."""
+    CT = "fpgroups::cosets::CosetTable::"
+    gb, sb, nb = ctx.body(CT + "get"), ctx.body(CT + "set"), ctx.body(CT + "new")
+    ctx.scan([gb, sb, nb])
+    def col_of(b, pat):
+        me = ("param", 1, b.debug.get(1, ""))
+        for bi, t in b.calls(pat):
+            a = [strip(norm(b.origin(x), g)) for x in t["args"]]
+            if (is_call(a[0], "Index::index") or is_call(a[0], "IndexMut::index_mut")) and strip(a[0][2][0]) == ("field", me, "table"):
+                return a[1], strip(a[0][2][1])
+        return None, None
+    gcol, grow = col_of(gb, "Index::index")
+    scol, srow = col_of(sb, "IndexMut::index_mut")
+    widths = []
+    for b in (nb, sb):
+        for bi, t in b.calls("vec::from_elem"):
+            a = [strip(norm(b.origin(x), g)) for x in t["args"]]
+            widths.append((b, a[0], a[1]))
+    bad = None
+    if gcol is None or scol is None:
+        bad = "get()/set() do not address table[c][..]"
+    elif grow != ("param", 2, gb.debug.get(2, "")) or srow != ("param", 2, sb.debug.get(2, "")):
+        bad = "get()/set() do not address the row of their first argument"
+    elif len(widths) < 2:
+        bad = "new() and set() do not both create rows with vec![-1; ..]"
+    n_eval = 0
+    if not bad:
+        for n in (1, 2, 3):
+            cols_g, cols_s = [], []
+            for letter in [x for x in range(-n, n + 1) if x != 0]:
+                eg = eval_term_env(gcol, {("param", 3, gb.debug.get(3, "")): letter, ("field", ("param", 1, gb.debug.get(1, "")), "nr_gens"): n})
+                es = eval_term_env(scol, {("param", 3, sb.debug.get(3, "")): letter, ("field", ("param", 1, sb.debug.get(1, "")), "nr_gens"): n})
+                cols_g.append(eg)
+                cols_s.append(es)
+                n_eval += 1
+            if cols_g != cols_s:
+                bad = bad or "for %d generators get() reads columns %s but set() writes columns %s" % (n, cols_g, cols_s)
+            elif None in cols_g or len(set(cols_g)) != 2 * n or min(cols_g) < 0 or max(cols_g) > 2 * n:
+                bad = bad or "for %d generators the letters map to columns %s: not an injection into 0..=%d" % (n, cols_g, 2 * n)
+            for b, fill, w in widths:
+                env = {("field", ("param", 1, b.debug.get(1, "")), "nr_gens"): n, ("param", 1, b.debug.get(1, "")): n}
+                if eval_int(fill) != -1 or eval_term_env(w, env) != 2 * n + 1:
+                    bad = bad or "%s creates rows vec![%s; %s] for %d generators, expected vec![-1; %d]" % (b.name.split("::")[-1], show(fill, 1), eval_term_env(w, env), n, 2 * n + 1)
+    ctx.ob(rule, "fpgroups::cosets::CosetTable", "new / get / set", "ok" if not bad and n_eval else "violation",
+           "rows of 2n + 1 cells filled with -1; letter g lives in column g + n in get() and set() alike (n = 1..3)" if not bad and n_eval else (bad or "nothing evaluated"))
+    # None exactly for cells < 0 and rows beyond the table
+    somes = [bi for bi, si, s in gb.assigns() if s["place"]["l"] == 0 and s["rv"]["k"] == "aggregate" and s["rv"].get("variant") == "Some"]
+    oksome = bool(somes)
+    for bi in somes:
+        fa = [atom_norm(x, g) for x in gb.facts_at(bi)]
+        if not (any(x[0] == "rel" and implies(x, ("rel", "Le", ("int", 0), x[3])) for x in fa if x[0] == "rel" and x[1] in ("Le", "Lt") and x[2][0] == "int") and
+                any(x[0] == "rel" and x[1] == "Lt" and strip(x[2]) == ("param", 2, gb.debug.get(2, "")) for x in fa)):
+            oksome = False
+    ctx.ob(rule, CT + "get", "Some <- c < len() && cell >= 0", "ok" if oksome else "violation",
+           "an image is reported only for rows inside the table and non-negative cells" if oksome else "get() can report an image for a row beyond the table or for an undefined (-1) cell")
